@@ -98,12 +98,20 @@ static bool match_track(Case &c, const std::vector<XE> &exp, const std::vector<D
             }
             if(nkey >= 3) count("ticks_with_a_key_struck_or_released_three_times");
         }
-        // update sounding state in file order
-        for(size_t a = 0; a < n; a++)
+        // update the sounding state in the order the statement prescribes: the first note-off of a key that was sounding before the tick
+        // takes effect first (R3), everything else in file order (R5)
         {
-            const XE &A = exp[i + a];
-            if(A.cls == CL_NOTEON) sounding[A.e.channel][A.e.data[0] & 127] = true;
-            if(A.cls == CL_NOTEOFF) sounding[A.e.channel][A.e.data[0] & 127] = false;
+            bool start[16][128]; memcpy(start, sounding, sizeof(start));
+            bool first_off_done[16][128]; memset(first_off_done, 0, sizeof(first_off_done));
+            for(size_t a = 0; a < n; a++) { const XE &A = exp[i + a]; if(A.cls == CL_NOTEOFF) { int ch = A.e.channel, key = A.e.data[0] & 127; if(start[ch][key] && !first_off_done[ch][key]) { first_off_done[ch][key] = true; sounding[ch][key] = false; } } }
+            memset(first_off_done, 0, sizeof(first_off_done));
+            for(size_t a = 0; a < n; a++)
+            {
+                const XE &A = exp[i + a];
+                int ch = A.e.channel, key = A.cls == CL_NOTEON || A.cls == CL_NOTEOFF ? (A.e.data[0] & 127) : 0;
+                if(A.cls == CL_NOTEON) sounding[ch][key] = true;
+                if(A.cls == CL_NOTEOFF) { if(start[ch][key] && !first_off_done[ch][key]) { first_off_done[ch][key] = true; continue; } sounding[ch][key] = false; }
+            }
         }
         // timing of the group
         uint64_t tick_eff = lone_eot ? last_nonlone_tick : exp[i].tick;     // a lone End-of-Track is delivered with the preceding row
